@@ -98,7 +98,7 @@ let spec prop inp out =
        let pre = int_of_string pre and extra = int_of_string extra and vals = ints_of vals and arg = int_of_string arg in
        let n = List.length vals in
        let a = Array.of_list vals in
-       let must_not_panic () = if is_panic out || out = "hang" then bad "%s on a documented argument" out in
+       let must_not_panic () = if is_panic out || out = "hang" || out = "hang-skipped" then bad "%s on a documented argument" out in
        (match k with
         | "P" ->
           must_not_panic ();
